@@ -189,8 +189,8 @@ def plan(prop, tier):
     elif prop == "C17":
         jobs = [Job("fault", "c-asan", ["fault", "--known-file", os.path.join(os.path.dirname(os.path.dirname(os.path.abspath(__file__))), "known_c17_cases.txt")], NPROC)]
         P = dict(base, level="fault_enumeration", jobs=jobs, states_key="fault_runs", transitions_key="fault_runs", nontrivial_key="faults_fired",
-                 rule="20 scenarios (create; definitions by text and by callbacks, good and defective; parses covering lookahead 0/1/2, recovery, all parses, cost pruning with and without parse_free, sparse codes, invalid token, empty input); the fault-free run of each scenario counts its N allocation requests (YAEP_VERIF hook in allocate.c), then for every k in 1..N a forked child makes exactly request k fail and checks: NULL / YAEP_NO_MEMORY, error code recorded, no sanitizer report or exit, the object can be freed, a bystander object defined before still parses to the same tree; distinct_nontrivial = runs in which the fault fired",
-                 bounds={"scenarios": 20, "faults_per_scenario": "all k up to the fault-free request count"}, require={"fault_runs": 500, "faults_fired": 500})
+                 rule="23 scenarios (create; definitions by text and by callbacks, good and defective; parses covering lookahead 0/1/2, recovery, all parses, cost pruning with and without parse_free, sparse codes, invalid token, empty input; 80 terminals, 41 rules and a 12 001-token input so that vectors grow); the fault-free run of each scenario counts its N allocation requests (YAEP_VERIF hook in allocate.c), then for every k in 1..N a forked child makes exactly request k fail and checks: NULL / YAEP_NO_MEMORY, error code recorded, no sanitizer report or exit, the object can be freed, a bystander object defined before still parses to the same tree; distinct_nontrivial = runs in which the fault fired",
+                 bounds={"scenarios": 23, "faults_per_scenario": "all k up to the fault-free request count"}, require={"fault_runs": 500, "faults_fired": 500})
     elif prop == "C10":
         jobs = [Job("def", "c", ["def"] + ([] if q else ["--thorough"]), NPROC), Job("def-asan", "c-asan", ["def", "--sample", "97"], NPROC)]
         P = dict(base, jobs=jobs, states_key="definitions", transitions_key="definitions", nontrivial_key="nontrivial_rejections",
